@@ -94,8 +94,10 @@ class TornadoEventLoop(EventLoop):
         Call all the registered idle callbacks.
         """
         try:
-            for callback in self._idle_callbacks.values():
-                callback()
+            for handle, callback in list(self._idle_callbacks.items()):
+                # an idle callback may add or remove idle callbacks (itself included)
+                if handle in self._idle_callbacks:
+                    callback()
         finally:
             self._idle_asyncio_handle = None
 
